@@ -122,6 +122,10 @@ pub fn rewrite_families() -> Vec<Raw> {
         raw("reorder:left-mixed2", "SELECT t1.a, u.d, t2.b FROM t t1 JOIN t t2 ON t2.a = t1.a LEFT JOIN u ON t2.b = u.d"),
         raw("reorder:cross3", "SELECT t1.a, u.d, t2.b FROM t t1, u, t t2 WHERE t1.a = t2.a"),
         raw("reorder:cross-where", "SELECT t1.a, u.d, t2.b FROM t t1, u, t t2 WHERE t1.a = u.a AND u.d = t2.b AND t1.b < t2.b"),
+        raw("reorder:cte-both-sides", "WITH c AS (SELECT a, b FROM t) SELECT c1.a, c2.b FROM c c1 JOIN u ON c1.a = u.a JOIN c c2 ON u.a = c2.a"),
+        raw("reorder:matcte-both-sides", "WITH c AS MATERIALIZED (SELECT a, b FROM t) SELECT c1.a, c2.b FROM c c1 JOIN u ON c1.a = u.a JOIN c c2 ON u.a = c2.a"),
+        raw("reorder:view-like-both-sides", "SELECT c1.a, c2.b FROM (SELECT a, b FROM t) c1 JOIN u ON c1.a = u.a JOIN (SELECT a, b FROM t) c2 ON u.a = c2.a"),
+        raw("reorder:cte-values-both-sides", "WITH c AS (SELECT a, x FROM (VALUES (1,'a'),(2,'b'),(2,'c'),(NULL,'d'),(3,'e')) l(a,x)) SELECT c1.a, c2.x FROM c c1 JOIN u ON c1.a = u.a JOIN c c2 ON u.a = c2.a"),
         raw("reorder:selfjoin", "SELECT x.a, y.b FROM t x JOIN t y ON x.a = y.a"),
         raw("reorder:semi-chain", "SELECT t1.a FROM t t1 JOIN u ON t1.a = u.a WHERE t1.b IN (SELECT b FROM t)"),
         // sort-limit hint
@@ -233,8 +237,8 @@ pub fn run(tier: Tier) -> i32 {
     let reference = cfg("opt-off", &["SET enable_optimizer TO false"]);
     let others = vec![cfg("opt-on", &["SET enable_optimizer TO true"])];
     let (depth, full, r, budget, rt, ru) = match tier {
-        Tier::Quick => (2, false, 2, 30, 1, 1),
-        Tier::Thorough => (2, true, 3, 100, 2, 1),
+        Tier::Quick => (2, false, 2, 30, 2, 1),
+        Tier::Thorough => (2, true, 3, 100, 2, 2),
     };
     // part 1: the algebra terms
     let terms = alg::terms(depth, full);
